@@ -58,7 +58,7 @@ import Panrpc.Model.RemoteDef
 
 open Panrpc
 
-namespace Driver
+namespace Driver.RwQ
 
 /-! ### hex -/
 
@@ -184,4 +184,4 @@ def remoteDefQuery (ws : List String) : String :=
       else "bad-shape duplicate-sibling-name"
   | _ => "bad-op rw " ++ " ".intercalate ws
 
-end Driver
+end Driver.RwQ
